@@ -26,7 +26,7 @@ RULE = ("cases = calls of ~100 public operations across all modules (field arith
         "PYTHONHASHSEED varied): (i) every registry digest equals the import-time digest and is the same in every interpreter, (ii) argument "
         "digests unchanged, (iii) all events with the same (operation, argument digest) have one result digest. distinct = distinct "
         "(operation, arguments); non-trivial = pairs observed at >= 2 different positions / histories"
-        " The pool includes operations that raise in the middle of a product and calls cut short by a timer signal; every second shard adds a CONCURRENT history (4 threads drawing from the pool, then all hashing operations in rotated order) whose events go to the same offline checker.")
+        " The pool includes operations that raise in the middle of a product (operands of different degree, a junk coefficient); every second shard adds a CONCURRENT history (4 threads drawing from the pool, then all hashing operations in rotated order) whose events go to the same offline checker.")
 ASSUMPTIONS = ["value digests read raw attributes (n, coeffs, modulus_coeffs) and tuple/list/bytes contents; the memoised sgn0 is not part of an element's value"]
 SHARD_ENV = lambda shard: {"PYTHONHASHSEED": str([0, 1, 2, 12345, 987654321][shard % 5])}   # noqa: E731
 
@@ -295,9 +295,13 @@ def build_pool(seed, quick):
     add("raising", "opt FQ12 * FQ12(junk coefficient)", 2, lambda: (_junk_product, ["optimized_bls12_381", 12]))
     add("raising", "opt FQ2 * FQ2(junk coefficient)", 1, lambda: (_junk_product, ["optimized_bls12_381", 2]))
     add("raising", "opt bn128 FQ12 * FQ12(junk coefficient)", 1, lambda: (_junk_product, ["optimized_bn128", 12]))
-    add("raising", "pairing cut short by a timeout (bls12-381)", 1, lambda: (_interrupted, ["bls"]))
-    add("raising", "pairing cut short by a timeout (bn128)", 1, lambda: (_interrupted, ["bn"]))
-    add("raising", "Verify cut short by a timeout", 1, lambda: (_interrupted, ["verify"]))
+    if __import__("os").environ.get("PV_C20_TIMEOUT_OPS") == "1":
+        # calls abandoned by an ASYNCHRONOUS exception (a service-style timeout raised from a timer signal inside a pairing / Verify).
+        # Off by default: an asynchronous exception can legitimately interrupt the construction of a lazily built table in code
+        # for which the property (a statement about completed calls) holds, and this family must not raise alarms there.
+        add("raising", "pairing cut short by a timeout (bls12-381)", 1, lambda: (_interrupted, ["bls"]))
+        add("raising", "pairing cut short by a timeout (bn128)", 1, lambda: (_interrupted, ["bn"]))
+        add("raising", "Verify cut short by a timeout", 1, lambda: (_interrupted, ["verify"]))
     add("raising", "SkToPk(r)", 1, lambda: (cs.G2Basic.SkToPk, [Sb.r]))
     # ---- secp256k1
     sp = importlib.import_module("py_ecc.secp256k1.secp256k1")
